@@ -107,4 +107,362 @@ theorem C09_returns_iff_root (M : Static) (F G : ResFn) (root : Root) (hwf : Nom
   · rename_i x hr
     exact ⟨fun _ => ⟨x, hr⟩, fun _ => rfl⟩
 
+/-- **The statement above is about what `get_var` returns.**  The physical environment of an
+    object state is read off by `get_var`: states, algebraics, derivative variables, time and
+    inputs (index + plain sign; an alias only adds the sign, see C13). -/
+theorem C09_env_is_get_var (M : Static) (s : Sim) (hwf : NomWF M) (hlen : s.sv.length = M.L.len) :
+    (∀ k, k < M.L.nS → (envOf M s).x.getD k 0 = getVar M s k false)
+    ∧ (∀ j, j < M.L.nA → (envOf M s).a.getD j 0 = getVar M s (M.L.nS + j) false)
+    ∧ (∀ k, k < M.L.nS → (envOf M s).d.getD k 0 = getVar M s (M.L.iD k) false)
+    ∧ (∀ k, k < M.L.nU → (envOf M s).u.getD k 0 = getVar M s (M.L.iU k) false)
+    ∧ (envOf M s).t = getTime M s :=
+  ⟨fun k hk => envOf_x M s k hk hlen, fun j hj => envOf_a M s j hj hlen,
+   fun k hk => envOf_d M s k hk hlen, fun k hk => envOf_u M s k hk,
+   (getTime_raw M s hwf).symm⟩
+
+/-- **The `index <= n_states` guard is benign.**  `get_var`, `set_var` and the scaling loop of
+    `initialize()` test `index <= n_states` where `index < n_states` is meant; index `n_states`
+    is the `time` entry.  Because nominals are only ever registered for states, algebraics and
+    extra variables (`NomWF`), the looked-up nominal of `time` is 1 and both guards give the same
+    functions. -/
+theorem C09_index_guard_benign (M : Static) (hwf : NomWF M) (s : Sim) (i : Nat) (neg : Bool)
+    (v : Rat) (X : Vec) :
+    getVar M s i neg = getVarStrict M s i neg
+    ∧ setVar M s i neg v = setVarStrict M s i neg v
+    ∧ scaleSubst M.L M.nom X = scaleSubstStrict M.L M.nom X := by
+  refine ⟨?_, ?_, ?_⟩
+  · unfold getVar getVarStrict
+    by_cases h : i < M.L.nX
+    · simp [h, Nat.le_of_lt h]
+    · by_cases h' : i ≤ M.L.nX
+      · have : i = M.L.nX := by omega
+        subst this
+        simp [nomAt_of_wf hwf M.L.nX (le_refl _)]
+      · simp [h, h']
+  · unfold setVar setVarStrict
+    by_cases h : i < M.L.nX
+    · simp [h, Nat.le_of_lt h]
+    · by_cases h' : i ≤ M.L.nX
+      · have : i = M.L.nX := by omega
+        subst this
+        simp [nomAt_of_wf hwf M.L.nX (le_refl _)]
+      · simp [h, h']
+  · unfold scaleSubst scaleSubstStrict
+    apply List.map_congr_left
+    intro i _
+    by_cases h : i < M.L.nX
+    · cases List.lookup i M.nom <;> simp [h, Nat.le_of_lt h]
+    · rw [lookup_none_of_wf hwf i (by omega)]
+
+/-- without the well-formedness the two guards do differ (the hypothesis is not idle):
+    a nominal registered at the `time` index rescales `get_var("time")` -/
+example :
+    let M : Static := { L := { nS := 1, nA := 0, nE := 0, nU := 0, nP := 0 }, nom := [(2, 10)], p := [] }
+    getVar M { sv := [1, 0, 5], dt := 1 } 2 false = 50
+    ∧ getVarStrict M { sv := [1, 0, 5], dt := 1 } 2 false = 5 := by decide +kernel
+
+/-- **`get_var` after `set_var` returns the value, for every non-zero nominal** (any entry of
+    the state vector, plain or negated alias). -/
+theorem C09_get_set_var (M : Static) (s : Sim) (i : Nat) (neg : Bool) (v : Rat)
+    (hi : i < s.sv.length) (hν : nomAt M.nom i ≠ 0) :
+    getVar M (setVar M s i neg v) i neg = v := by
+  unfold getVar setVar
+  simp only [List.getD_eq_getElem?_getD, List.getElem?_set_self hi, Option.getD_some]
+  by_cases hx : i ≤ M.L.nX <;> cases neg <;> simp [hx] <;> field_simp
+
+/-- **Initialisation is consistent.**  If `initialize()` returns, the state satisfies the model
+    equations, the initial equations and the extra equations at the start time with the inputs
+    as set, and every unknown lies within its (physical) bounds for every positive nominal — in
+    particular a `fixed` variable (both bounds = start value) equals its start value. -/
+theorem C09_init_consistent (M : Static) (F Finit G : ResFn) (bnds : List VarBound)
+    (solver : InitSolver) (hsolver : InitSound solver) (s s' : Sim)
+    (hlen : s.sv.length = M.L.len)
+    (h : simInitialize M F Finit G bnds solver s = .returned s') :
+    (∀ v ∈ F (envOf M s'), v = 0) ∧ (∀ v ∈ Finit (envOf M s'), v = 0) ∧ (∀ v ∈ G (envOf M s'), v = 0)
+    ∧ (∀ i (b : VarBound), bnds[i]? = some b → i < M.L.nX → 0 < nomAt M.nom i →
+        (∀ lo, b.lo = some lo → lo ≤ getVar M s' i false)
+        ∧ (∀ hi, b.hi = some hi → getVar M s' i false ≤ hi)
+        ∧ (∀ start, b.lo = some start → b.hi = some start → getVar M s' i false = start))
+    ∧ s'.sv.drop M.L.nX = s.sv.drop M.L.nX ∧ s'.sv.length = M.L.len := by
+  have hnl := M.L.nX_lt_len
+  unfold simInitialize at h
+  split at h
+  · cases h
+  · rename_i X0 hX
+    obtain ⟨hl, hz, hb⟩ := hsolver _ _ _ _ hX
+    have hX0 : X0.length = M.L.nX := by rw [hl, List.length_take, hlen]; omega
+    injection h with h
+    subst h
+    have htk : X0.take M.L.nX = X0 := List.take_of_length_le (by omega)
+    simp only [htk]
+    have h1 : (X0 ++ s.sv.drop M.L.nX).take M.L.nX = X0 := by rw [← hX0]; exact List.take_left
+    have h2 : (X0 ++ s.sv.drop M.L.nX).drop M.L.nX = s.sv.drop M.L.nX := by
+      rw [← hX0]; exact List.drop_left
+    -- the environment of the constraints is the environment of the new object state
+    have henv : initConstraints M F Finit G s.sv X0
+        = F (envOf M { s with sv := X0 ++ s.sv.drop M.L.nX })
+          ++ Finit (envOf M { s with sv := X0 ++ s.sv.drop M.L.nX })
+          ++ G (envOf M { s with sv := X0 ++ s.sv.drop M.L.nX }) := by
+      unfold initConstraints envOf
+      simp only [h1]
+      have e1 : (s.sv.drop M.L.nX).getD 0 0 = (X0 ++ s.sv.drop M.L.nX).getD M.L.iT 0 := by
+        have hiT : M.L.iT = M.L.nX := rfl
+        rw [hiT, List.getD_eq_getElem?_getD, List.getD_eq_getElem?_getD,
+          List.getElem?_append_right (by omega), hX0, Nat.sub_self]
+      have e2 : ((s.sv.drop M.L.nX).drop 1).take M.L.nU
+          = ((X0 ++ s.sv.drop M.L.nX).drop (M.L.nX + 1)).take M.L.nU := by
+        rw [← List.drop_drop, h2]
+      rw [e1, e2]
+    rw [henv] at hz
+    refine ⟨fun v hv => hz v (by simp [hv]), fun v hv => hz v (by simp [hv]),
+      fun v hv => hz v (by simp [hv]), ?_, h2, ?_⟩
+    · intro i b hbi hi hpos
+      have hget : getVar M { s with sv := X0 ++ s.sv.drop M.L.nX } i false
+          = X0.getD i 0 * nomAt M.nom i := by
+        unfold getVar
+        simp only [if_pos (Nat.le_of_lt hi)]
+        rw [List.getD_eq_getElem?_getD, List.getD_eq_getElem?_getD,
+          List.getElem?_append_left (by omega)]
+        simp
+      have hsb : (scaledBounds M bnds)[i]?
+          = some { lo := b.lo.map (· / nomAt M.nom i), hi := b.hi.map (· / nomAt M.nom i) } := by
+        have hil : i < bnds.length := by
+          rcases List.getElem?_eq_some_iff.1 hbi with ⟨hh, _⟩; exact hh
+        unfold scaledBounds
+        rw [List.getElem?_map, List.getElem?_range hil]
+        simp only [Option.map_some]
+        rw [List.getD_eq_getElem?_getD, hbi]
+        rfl
+      obtain ⟨hlo, hhi⟩ := hb i _ hsb
+      have hlo' : ∀ lo, b.lo = some lo → lo ≤ getVar M { s with sv := X0 ++ s.sv.drop M.L.nX } i false := by
+        intro lo hl'
+        have := hlo (lo / nomAt M.nom i) (by simp [hl'])
+        rw [hget]
+        rwa [div_le_iff₀ hpos] at this
+      have hhi' : ∀ hi', b.hi = some hi' → getVar M { s with sv := X0 ++ s.sv.drop M.L.nX } i false ≤ hi' := by
+        intro hi' hh'
+        have := hhi (hi' / nomAt M.nom i) (by simp [hh'])
+        rw [hget]
+        rwa [le_div_iff₀ hpos] at this
+      exact ⟨hlo', hhi', fun st h1' h2' => le_antisymm (hhi' st h2') (hlo' st h1')⟩
+    · simp [hX0, hlen]; omega
+
+/-- **An initialisation that cannot be solved raises** and leaves the object untouched. -/
+theorem C09_init_failure_raises (M : Static) (F Finit G : ResFn) (bnds : List VarBound)
+    (solver : InitSolver) (s : Sim) (hfail : ∀ g bs, solver g bs (s.sv.take M.L.nX) = none) :
+    simInitialize M F Finit G bnds solver s = .raised s := by
+  unfold simInitialize
+  rw [hfail]
+
+/-- **Outputs are recorded at every step including t0.**  Start from the object as
+    `IOMixin.initialize` leaves it (one time stamp, one record per output).  After `k` updates
+    that did not raise (any `dt` arguments, negative = the import step), there is a sequence
+    `tr` of `k+1` object states, consecutive ones related by one IO update (`IsTrace`), such that
+    `_simulation_times` is the list of their times and every output list is the list of
+    `get_var` of that output over `tr` — `k+1` entries, entry `j` the value at state `j`; the
+    clock advances by the step from one state to the next.  Induction over the update sequence;
+    any residual function, root finder, layout, nominals. -/
+theorem C09_outputs_every_step (io : IOStatic) (F G : ResFn) (root : Root) (hroot : RootSound root)
+    (dtImport : Rat) (hwf : NomWF io.M) (hs : SeriesWF io) (st st' : IOSim) (dts : List Rat)
+    (hlen : st.sim.sv.length = io.M.L.len)
+    (ht0 : st.times = [getTime io.M st.sim])
+    (ho0 : st.out = (record io st.sim).map (fun v => [v]))
+    (hpos : ∀ d ∈ dts, 0 < (if d < 0 then dtImport else d))
+    (h : ioRun io F G root dtImport st dts = .returned st') :
+    ∃ tr : List Sim, IsTrace io F G root dtImport st.sim dts tr
+      ∧ tr.length = dts.length + 1 ∧ tr.head? = some st.sim ∧ tr.getLast? = some st'.sim
+      ∧ st'.times = tr.map (getTime io.M)
+      ∧ st'.out.length = io.outs.length
+      ∧ (∀ o, o < io.outs.length →
+          st'.out.getD o [] = tr.map (fun s =>
+            getVar io.M s (io.outs.getD o (0, false)).1 (io.outs.getD o (0, false)).2))
+      ∧ List.zipWith (fun (q : Sim) dtArg => getTime io.M q + (if dtArg < 0 then dtImport else dtArg))
+          tr dts = tr.tail.map (getTime io.M) := by
+  obtain ⟨tr, htr, hl, hlast, hout, htimes⟩ := ioRun_trace io F G root dtImport dts st st' h
+  obtain ⟨hz, _, hhead⟩ := trace_times io F G root hroot dtImport hwf hs dts hpos st.sim tr hlen htr
+  have hrows : ∀ r ∈ tr.tail.map (record io), r.length = io.outs.length := by
+    intro r hr
+    obtain ⟨q, _, rfl⟩ := List.mem_map.1 hr
+    exact record_length io q
+  have hout0 : st.out.length = io.outs.length := by rw [ho0]; simp [record_length]
+  obtain ⟨ha, hb⟩ := appendRows_spec _ _ hrows st.out hout0
+  cases tr with
+  | nil => simp at hl
+  | cons a b =>
+    have ha' : a = st.sim := by simpa using hhead
+    subst ha'
+    refine ⟨_, htr, hl, rfl, hlast, ?_, ?_, ?_, hz⟩
+    · rw [htimes, hz, ht0]; rfl
+    · rw [hout]; exact ha
+    · intro o ho
+      rw [hout, hb o ho, ho0]
+      simp only [List.tail_cons, List.map_cons, List.map_map]
+      have e0 : (List.map (fun v => [v]) (record io st.sim)).getD o []
+          = [(record io st.sim).getD o 0] := by
+        have : o < (record io st.sim).length := by rw [record_length]; exact ho
+        simp [List.getD_eq_getElem?_getD, List.getElem?_map, List.getElem?_eq_getElem this]
+      rw [e0, record_getD io st.sim o ho]
+      simp only [List.singleton_append, List.cons.injEq, true_and]
+      apply List.map_congr_left
+      intro q _
+      exact record_getD io q o ho
+
+/-- with a constant step (e.g. `simulate()`, which calls `update(-1)`): record `j` is the state
+    at `t0 + j·dt` -/
+theorem C09_record_times_equidistant (io : IOStatic) (F G : ResFn) (root : Root)
+    (hroot : RootSound root) (dtImport : Rat) (hwf : NomWF io.M) (hs : SeriesWF io) (δ : Rat)
+    (hδ : 0 < δ) (dts : List Rat) (hconst : ∀ d ∈ dts, (if d < 0 then dtImport else d) = δ)
+    (s : Sim) (tr : List Sim) (hlen : s.sv.length = io.M.L.len)
+    (h : IsTrace io F G root dtImport s dts tr) :
+    tr.map (getTime io.M)
+      = (List.range (dts.length + 1)).map (fun (j : Nat) => getTime io.M s + (j : Rat) * δ) :=
+  trace_times_const io F G root hroot dtImport hwf hs δ hδ dts hconst s tr hlen h
+
+/-- **Every recorded step is a backward-Euler step with the inputs fed for the new time.**
+    Two consecutive states of a run: the inputs for index `bisect_left(times, t + dt)` were
+    written into the state vector (unknowns and clock untouched), then the model equations were
+    solved: all conclusions of `C09_step_backward_euler` hold between the two recorded states. -/
+theorem C09_io_step (io : IOStatic) (F G : ResFn) (root : Root) (hroot : RootSound root)
+    (dtImport : Rat) (hwf : NomWF io.M) (hs : SeriesWF io) (s s' : Sim) (dtArg : Rat)
+    (hlen : s.sv.length = io.M.L.len) (hpos : 0 < (if dtArg < 0 then dtImport else dtArg))
+    (h : StepRel io F G root dtImport s s' dtArg) :
+    let dt := if dtArg < 0 then dtImport else dtArg
+    ∃ s1, feed io (bisectLeft io.timesSec (getTime io.M s + dt)) s = some s1
+      ∧ (envOf io.M s1).x = (envOf io.M s).x ∧ (envOf io.M s1).t = (envOf io.M s).t
+      ∧ (∀ v ∈ F (envOf io.M s'), v = 0) ∧ (∀ v ∈ G (envOf io.M s'), v = 0)
+      ∧ (envOf io.M s').d = diffQuot io.M s s' dt
+      ∧ (∀ v ∈ F { envOf io.M s' with d := diffQuot io.M s s' dt }, v = 0)
+      ∧ (envOf io.M s').t = (envOf io.M s).t + dt
+      ∧ (envOf io.M s').u = (envOf io.M s1).u := by
+  intro dt
+  obtain ⟨s1, hf, hu⟩ := h
+  obtain ⟨htk, hl1, _⟩ := feed_spec io hs _ s s1 hf
+  have hlen1 : s1.sv.length = io.M.L.len := hl1.trans hlen
+  have hnl := io.M.L.nX_lt_len
+  have htake : s1.sv.take io.M.L.nX = s.sv.take io.M.L.nX := by
+    have := congrArg (List.take io.M.L.nX) htk
+    rwa [List.take_take, List.take_take, Nat.min_eq_left (by omega)] at this
+  have ht1 : s1.sv.getD io.M.L.iT 0 = s.sv.getD io.M.L.iT 0 := by
+    have hiT : io.M.L.iT = io.M.L.nX := rfl
+    have e1 : s1.sv.getD io.M.L.nX 0 = (s1.sv.take (io.M.L.nX + 1)).getD io.M.L.nX 0 := by
+      simp [List.getD_eq_getElem?_getD]
+    have e2 : s.sv.getD io.M.L.nX 0 = (s.sv.take (io.M.L.nX + 1)).getD io.M.L.nX 0 := by
+      simp [List.getD_eq_getElem?_getD]
+    rw [hiT, e1, e2, htk]
+  have hx : (envOf io.M s1).x = (envOf io.M s).x := by simp only [envOf, mkEnv, htake]
+  have hdq : diffQuot io.M s1 s' dt = diffQuot io.M s s' dt := by simp only [diffQuot, hx]
+  obtain ⟨hF, hG, hd, hFd, ht, hu', _⟩ :=
+    C09_step_backward_euler io.M F G root hroot hwf s1 s' dt hlen1 hu
+  have hpos' : dt > 0 := hpos
+  simp only [if_pos hpos'] at hd hFd ht
+  refine ⟨s1, hf, hx, ?_, hF, hG, ?_, ?_, ?_, hu'⟩
+  · show s1.sv.getD io.M.L.iT 0 = s.sv.getD io.M.L.iT 0
+    exact ht1
+  · rw [hd, hdq]
+  · rw [← hdq]; exact hFd
+  · rw [ht]
+    show s1.sv.getD io.M.L.iT 0 + dt = s.sv.getD io.M.L.iT 0 + dt
+    rw [ht1]
+
+/-- **Inputs are taken at t+dt**: on a strictly increasing time axis `bisect_left` of a time
+    stamp of the axis is the index of that stamp, so the values fed before the step are the
+    series values at the new time. -/
+theorem C09_bisect_at_stamp (pre post : List Rat) (t : Rat)
+    (hpre : ∀ a ∈ pre, a < t) : bisectLeft (pre ++ t :: post) t = pre.length := by
+  induction pre with
+  | nil => simp [bisectLeft]
+  | cons a rest ih =>
+    have ha : a < t := hpre a (by simp)
+    simp only [List.cons_append, bisectLeft, if_pos ha, List.length_cons]
+    rw [ih (fun b hb => hpre b (by simp [hb]))]
+
+/-- **What is fed is the series value.**  With pairwise distinct targets among the constant
+    inputs: after `__set_input_variables(t_idx)` `get_var` of a target returns the series value
+    at `t_idx` when it is finite and the previous value when it is not (NaN gap); the unknowns
+    and the clock are untouched.  (`none` = the index is past the end of a series: IndexError.) -/
+theorem C09_inputs_fed (io : IOStatic) (hs : SeriesWF io)
+    (hdist : io.series.Pairwise (fun a b => a.idx ≠ b.idx)) (tIdx : Nat) (s s1 : Sim)
+    (hlen : ∀ ser ∈ io.series, ser.idx < s.sv.length) (h : feed io tIdx s = some s1) :
+    (∀ ser ∈ io.series,
+        (∀ v, ser.vals[tIdx]? = some (some v) → getVar io.M s1 ser.idx ser.neg = v)
+        ∧ (ser.vals[tIdx]? = some none →
+            getVar io.M s1 ser.idx ser.neg = getVar io.M s ser.idx ser.neg))
+    ∧ s1.sv.take (io.M.L.nX + 1) = s.sv.take (io.M.L.nX + 1) :=
+  ⟨(feed_values_aux io.M tIdx io.series hdist hs s s1 hlen h).1, (feed_spec io hs tIdx s s1 h).1⟩
+
+/-- **Simulation step = collocation row with theta = 1 and the controls fixed.**
+    `thetaRow` is the row formula of property C01,
+    `(1-θ)·F(z_i, ż_i, c_i, p, t_i) + θ·F(z_{i+1}, ż_i, c_{i+1}, p, t_{i+1})`, `ż_i = Δx/Δt`.
+    For a model without user extra variables/equations, any residual function `F` of fixed output
+    length, any unknown vector `X` of a step from `X_prev` over `dt` with inputs `u` at the new
+    time `t` (the time axis of the transcription is relative to its t0, `t1' = t`):
+    `X` is a root of the simulation's step residual **iff** its derivative entries are the
+    difference quotients and its states/algebraics satisfy the θ = 1 rows with constant inputs
+    `c_{i+1} = u` (whatever `c_i`, `t_i` are).  The two equation sets coincide, hence so do the
+    solution sets; no uniqueness assumption. -/
+theorem C09_sim_equals_theta1 (M : Static) (F : ResFn) (hE : M.L.nE = 0)
+    (hF : ∀ e e' : Env, (F e).length = (F e').length)
+    (X Xprev : Vec) (hX : X.length = M.L.nX) (hXp : Xprev.length = M.L.nX)
+    (t dt : Rat) (u c0 : Vec) (t0' : Rat) (hdt : t - t0' = dt) :
+    let e1 := mkEnv M.L (scaleSubst M.L M.nom X) t u M.p
+    let e0 := mkEnv M.L (scaleSubst M.L M.nom Xprev) t u M.p
+    (∀ v ∈ stepResidual M F (fun _ => []) X dt (Xprev ++ t :: u), v = 0)
+    ↔ ((∀ k, k < M.L.nS → e1.d.getD k 0 = (e1.x.getD k 0 - e0.x.getD k 0) / dt)
+        ∧ ∀ v ∈ thetaRow F 1 e0.x e0.a e1.x e1.a [] c0 u M.p t0' t, v = 0) := by
+  subst hdt
+  intro e1 e0
+  rw [stepResidual_consts M F _ X Xprev (t - t0') t u hXp]
+  -- lengths of the slices
+  have hxl1 : e1.x.length = M.L.nS := by
+    apply slice_length; rw [scaleSubst_length, hX]; simp [Layout.nX]; omega
+  have hxl0 : e0.x.length = M.L.nS := by
+    apply slice_length; rw [scaleSubst_length, hXp]; simp [Layout.nX]; omega
+  have hdl : e1.d.length = M.L.nS := by
+    apply mkEnv_d_length; rw [scaleSubst_length, hX]
+  have hel : e1.e = [] := by
+    show slice _ _ M.L.nE = []
+    rw [hE]; simp [slice]
+  -- when the derivative entries are the difference quotients, the end-point environment of the
+  -- collocation row is the simulation's environment
+  have henv : (∀ k, k < M.L.nS → e1.d.getD k 0 = (e1.x.getD k 0 - e0.x.getD k 0) / (t - t0')) →
+      thetaRow F 1 e0.x e0.a e1.x e1.a [] c0 u M.p t0' t = F e1 := by
+    intro hd
+    have hzd : List.zipWith (fun b a => (b - a) / (t - t0')) e1.x e0.x = e1.d := by
+      apply List.ext_getElem
+      · simp [hxl1, hxl0, hdl]
+      · intro k h1 h2
+        have hk : k < M.L.nS := by rw [hdl] at h2; exact h2
+        have := hd k hk
+        rw [List.getD_eq_getElem?_getD, List.getElem?_eq_getElem h2] at this
+        simp only [Option.getD_some] at this
+        rw [this]
+        have hk1 : k < e1.x.length := by omega
+        have hk0 : k < e0.x.length := by omega
+        simp [List.getD_eq_getElem?_getD, List.getElem?_eq_getElem hk1, List.getElem?_eq_getElem hk0]
+    unfold thetaRow
+    simp only [hzd]
+    rw [zipWith_theta_one _ _ (hF _ _)]
+    congr 1
+    show ({ x := e1.x, a := e1.a, d := e1.d, e := [], t := t, u := u, p := M.p } : Env) = e1
+    rw [← hel]
+    rfl
+  constructor
+  · intro hz
+    have hd : ∀ k, k < M.L.nS → e1.d.getD k 0 = (e1.x.getD k 0 - e0.x.getD k 0) / (t - t0') := by
+      intro k hk
+      have := hz (e1.d.getD k 0 - (e1.x.getD k 0 - e0.x.getD k 0) / (t - t0')) (by
+        apply List.mem_append_left
+        apply List.mem_append_right
+        exact List.mem_map.2 ⟨k, List.mem_range.2 hk, rfl⟩)
+      linarith
+    refine ⟨hd, ?_⟩
+    rw [henv hd]
+    exact fun v hv => hz v (by simp [hv])
+  · rintro ⟨hd, hrow⟩ v hv
+    rw [henv hd] at hrow
+    simp only [List.append_nil, List.mem_append, List.mem_map, List.mem_range] at hv
+    rcases hv with hv | ⟨k, hk, rfl⟩
+    · exact hrow v hv
+    · rw [hd k hk]; ring
+
 end RtcVerif.C09
